@@ -14,6 +14,12 @@ from onsager import crystal, supercell, cluster
 def _a(*x): return np.array(x, dtype=float)
 
 
+def _with_interstitials(c, ulist):
+    basis = []
+    for u in ulist: basis += c.Wyckoffpos(u)
+    return c.addbasis(basis)
+
+
 def _crystals():
     s = {}
     s["chain"] = (lambda: crystal.Crystal(np.diag([1., 3., 3.2]), [_a(0, 0, 0)]), 0, ())
@@ -26,6 +32,11 @@ def _crystals():
     s["diamond"] = (lambda: crystal.Crystal(0.5 * _a([0, 1, 1], [1, 0, 1], [1, 1, 0]).T, [_a(0, 0, 0), _a(.25, .25, .25)]), 0, ())
     s["cub2"] = (lambda: crystal.Crystal(np.eye(3), [_a(0, 0, 0), _a(.5, .5, .3)]), 0, ())
     # (.4, not .5: Crystal() would reduce a half-translation to a one-site cell)
+    # mobile sites in TWO Wyckoff sets connected by jumps: three-site chain ({0,.6} and {.3}); FCC / HCP host (spectator)
+    # with octahedral + tetrahedral interstitial sites (mobile chemistry 1)
+    s["chain3"] = (lambda: crystal.Crystal(np.diag([1., 3., 3.2]), [_a(0, 0, 0), _a(.3, 0, 0), _a(.6, 0, 0)]), 0, ())
+    s["fccot"] = (lambda: _with_interstitials(crystal.Crystal.FCC(1.), [_a(.5, .5, .5), _a(.25, .25, .25)]), 1, (0,))
+    s["hcpot"] = (lambda: _with_interstitials(crystal.Crystal.HCP(1.), [_a(0, 0, .5), _a(1. / 3, 2. / 3, 0.625)]), 1, (0,))
     s["chain2"] = (lambda: crystal.Crystal(np.diag([1., 3., 3.2]), [_a(0, 0, 0), _a(.4, 0, 0)]), 0, ())
     # two chemistries, chem 1 spectator (B2-like, and a chain decorated with spectators)
     s["b2spec"] = (lambda: crystal.Crystal(np.eye(3), [[_a(0, 0, 0)], [_a(.5, .5, .5)]]), 0, (1,))
@@ -48,6 +59,9 @@ SETUPS = {
     "diamond": [(0.45, 2, 0.45), (0.72, 3, 0.45)],
     "cub2": [(0.8, 2, 0.8), (1.01, 3, 0.8)],
     "chain2": [(0.65, 2, 0.65), (1.1, 3, 0.65)],
+    "chain3": [(0.45, 2, 0.35), (0.75, 3, 0.45)],
+    "fccot": [(0.45, 2, 0.45), (0.51, 3, 0.45)],
+    "hcpot": [(0.62, 2, 0.62)],
     "b2spec": [(1.01, 3, 1.01)],
     "chainspec": [(1.1, 3, 1.1)],
     "chain2chem": [(1.1, 3, 1.1)],
@@ -63,6 +77,9 @@ SUPERS = {
     "diamond": [(2, 2, 2), (2, 2, 1), [[-1, 1, 1], [1, -1, 1], [1, 1, -1]], (3, 2, 2), (3, 3, 3)],
     "cub2": [(2, 2, 2), (2, 2, 1), (3, 2, 2), (3, 3, 2), [[2, 1, 0], [0, 2, 1], [0, 0, 2]]],
     "chain2": [(3, 1, 1), (4, 1, 1), (5, 1, 1), (2, 1, 1)],
+    "chain3": [(3, 1, 1), (4, 1, 1), (5, 1, 1), (2, 1, 1)],
+    "fccot": [(2, 2, 2), [[-1, 1, 1], [1, -1, 1], [1, 1, -1]], (3, 2, 2)],
+    "hcpot": [(2, 2, 1), (2, 2, 2), (3, 3, 2)],
     "b2spec": [(2, 2, 2), (2, 2, 1), (3, 2, 2)],
     "chainspec": [(4, 1, 1), (6, 1, 1), (3, 1, 1)],
     "chain2chem": [(3, 1, 1), (4, 1, 1), (5, 1, 1)],
@@ -115,6 +132,10 @@ def build(rng, name, setup=None, sup=None, vacancy=False, jumps=False, ts=False,
         S.values = np.array([step * rng.randint(-6, 6) for _ in range(n + 1)], dtype=float if jumps else int)
     else:
         S.values = np.array([rng.uniform(-1, 1) for _ in range(n + 1)])
+    if vacancy and vals == "int":
+        # distinct values for the bare (vacancy site only) vacancy clusters of the different Wyckoff sets
+        bare_v = [len(bare) + k for k, cl in enumerate(S.vacclusters) if next(iter(cl)).Norder == 0]
+        for k, v in zip(bare_v, rng.sample(range(-6, 7), len(bare_v))): S.values[k] = step * v
     S.socc = np.array([rng.choice((0, 1)) for _ in range(S.sup.size * S.sup.Nspec)], dtype=int)
     S.jumpnetwork, S.TSclusters, S.TSvalues, S.KRA = None, (), (), 0
     if jumps:
